@@ -335,6 +335,20 @@ fn verifier_flips(out: &mut Out, rng: &mut Rng, idx: u64) {
     // signature by another key
     let other = RefKey::from_seed(&rng.bytes(32));
     verify_case(out, &pk, &chunks, &other.sign(&msg), "other-key-signature");
+    // a signature is 64 bytes: the genuine one followed by anything, or cut short, is not one
+    for extra in [1usize, 4, 32, 64] {
+        let mut s = sig.clone();
+        s.extend_from_slice(&rng.bytes(extra));
+        verify_case(out, &pk, &chunks, &s, "signature-with-trailing-bytes");
+        out.obs("signature_length_cases", 1);
+    }
+    let mut z = sig.clone();
+    z.extend_from_slice(&[0u8; 64]);
+    verify_case(out, &pk, &chunks, &z, "signature-with-trailing-bytes");
+    for cut in [0usize, 1, 32, 63] {
+        verify_case(out, &pk, &chunks, &sig[..cut], "signature-truncated");
+        out.obs("signature_length_cases", 1);
+    }
 }
 
 /// small-order points (and two non-canonical encodings) as public key and as R, S = 0: triples
